@@ -125,3 +125,19 @@ for _n in (1, 2, 3, 4):
                 vc.ensure("computes_reduce_sum_of_outer_product", y.elem(out) == spec)
             obligation(f"C02.opt.outer_reduce_flatten.rank{_n}.o{_o}.r{_r}", "C02",
                        [f"{OP}:_emit_outer_reduce_flatten_parameter", f"{PO}:TorchEinsumParameter.forward", f"{PO}:TorchEinsumParameter.__init__"])(_h)
+
+
+# C06 relies on the same fact: evidence layers are folded together with their observation tensors, whose dtype follows the
+# Python type of the observed value (int -> integer tensor, float -> real tensor); tensors of different dtype must not share
+# a fold.  The obligation is registered for C06 as well.
+for _rank in (1, 2):
+    def _h(vc, _rank=_rank):
+        def mk(tag):
+            shp = vc.shape("shape" + tag, _rank)
+            return vc.new(f"{TN}:TorchTensorParameter", *shp, requires_grad=vc.bool("rg" + tag),
+                          dtype=SymToken("dtype", vc.int("dtype" + tag)), initializer_=vc.opaque("init" + tag))
+        a, b = mk("A"), mk("B")
+        vc.assume(vc.eq(vc.attr(a, "fold_settings"), vc.attr(b, "fold_settings")))
+        vc.ensure("same_shape", vc.eq(vc.attr(a, "shape"), vc.attr(b, "shape")))
+        vc.ensure("same_dtype", vc.eq(vc.attr(a, "dtype"), vc.attr(b, "dtype")))
+    obligation(f"C06.fold_settings.TorchTensorParameter.rank{_rank}", "C06", [f"{TN}:TorchTensorParameter.fold_settings"])(_h)
